@@ -195,6 +195,9 @@ def dnf(e, truth=True):
         return dnf(ast.BoolOp(op=ast.And(), values=parts), truth)
     if isinstance(e, ast.Constant):
         return [[]] if bool(e.value) == truth else []
+    if isinstance(e, (ast.Dict, ast.List, ast.Tuple, ast.Set)):
+        n_ = len(e.keys) if isinstance(e, ast.Dict) else len(e.elts)
+        return [[]] if bool(n_) == truth else []
     if isinstance(e, ast.IfExp):
         out = []
         for c in dnf(e.test, True):
@@ -205,6 +208,10 @@ def dnf(e, truth=True):
                 out.append(c + d)
         return out
     return [[atom(e, truth)]]
+
+
+import re as _re
+_CONST_PLUS = _re.compile(r"^(-?\d+) \+ (.*)$")
 
 
 def consistent(conds):
@@ -227,6 +234,16 @@ def consistent(conds):
             return False
         if len(d) == 3 and not any(d.values()):
             return False
+    # K1 + X == 0 and K2 + X == 0 cannot both hold
+    eqs = {}
+    for a, t in seen.items():
+        if t and a[0] == "==" and "0" in (a[1], a[2]):
+            other = a[2] if a[1] == "0" else a[1]
+            m = _CONST_PLUS.match(other)
+            if m:
+                eqs.setdefault(m.group(2), set()).add(int(m.group(1)))
+    if any(len(v) > 1 for v in eqs.values()):
+        return False
     return True
 
 
@@ -297,10 +314,29 @@ class _Sub(ast.NodeTransformer):
     visit_ListComp = visit_SetComp = visit_DictComp = visit_GeneratorExp = _comp
 
 
+class _FoldDisplay(ast.NodeTransformer):
+    """{'a': x}['a'] -> x ;  [p, q][1] -> q   (a display that was substituted for the name that owns it)"""
+
+    def visit_Subscript(self, n):
+        self.generic_visit(n)
+        if isinstance(n.ctx, ast.Load) and isinstance(n.slice, ast.Constant):
+            if isinstance(n.value, ast.Dict):
+                for k, v in zip(n.value.keys, n.value.values):
+                    if isinstance(k, ast.Constant) and k.value == n.slice.value:
+                        return v
+            if isinstance(n.value, (ast.List, ast.Tuple)) and isinstance(n.slice.value, int) and not isinstance(n.slice.value, bool) \
+                    and -len(n.value.elts) <= n.slice.value < len(n.value.elts) and not any(isinstance(x, ast.Starred) for x in n.value.elts):
+                return n.value.elts[n.slice.value]
+        return n
+
+
 def subst(e, env):
     if e is None:
         return None
-    return _Sub(env).visit(copy.deepcopy(e))
+    r = _Sub(env).visit(copy.deepcopy(e))
+    if any(isinstance(v, (ast.Dict, ast.List, ast.Tuple)) for v in env.values()):
+        r = _FoldDisplay().visit(r)
+    return r
 
 
 BOOL_SHAPES = (ast.BoolOp, ast.Compare)
@@ -536,6 +572,20 @@ class Summariser(object):
             p.effects.append(("store", t, value))
             self.bump(p)
             b = target.value
+            # a dict display still owned by this name: the item is set in the display
+            if not self.safe and isinstance(b, ast.Name) and isinstance(p.env.get(b.id), ast.Dict):
+                key = subst(target.slice, p.env)
+                if isinstance(key, ast.Constant):
+                    new = copy.deepcopy(p.env[b.id])
+                    for i_, k_ in enumerate(new.keys):
+                        if isinstance(k_, ast.Constant) and k_.value == key.value:
+                            new.values[i_] = value
+                            break
+                    else:
+                        new.keys.append(key)
+                        new.values.append(value)
+                    p.env[b.id] = new
+                    return
             # a list display still owned by this name: the element is replaced in the display
             if not self.safe and isinstance(b, ast.Name) and isinstance(p.env.get(b.id), ast.List):
                 idx = subst(target.slice, p.env)
@@ -663,6 +713,9 @@ class Summariser(object):
                 if isinstance(f, ast.Attribute):
                     if f.attr in NONMUTATING_METHODS:
                         continue
+                    if not self.safe and f.attr == "update" and isinstance(f.value, ast.Name) and isinstance(p.env.get(f.value.id), ast.Dict) \
+                            and not x.args and all(k_.arg is not None for k_ in x.keywords):
+                        continue        # items were set in the owned display (see _stmt)
                     if isinstance(f.value, ast.Name):
                         names.append(f.value.id)
                 for a in list(x.args) + [k.value for k in x.keywords]:
@@ -677,7 +730,7 @@ class Summariser(object):
                         if self.safe:
                             p.frozen[nm] = v
             elif isinstance(x, ast.Subscript) and isinstance(x.ctx, (ast.Store, ast.Del)) and isinstance(x.value, ast.Name):
-                if not self.safe and isinstance(x.ctx, ast.Store) and isinstance(p.env.get(x.value.id), ast.List):
+                if not self.safe and isinstance(x.ctx, ast.Store) and isinstance(p.env.get(x.value.id), (ast.List, ast.Dict)):
                     continue        # element replaced in the owned display (assign)
                 v = p.env.pop(x.value.id, None)
                 if self.safe and v is not None:
@@ -708,6 +761,15 @@ class Summariser(object):
             return [p]
         if isinstance(st, ast.Expr):
             if isinstance(st.value, ast.Constant):
+                return [p]
+            c_ = st.value
+            if not self.safe and isinstance(c_, ast.Call) and isinstance(c_.func, ast.Attribute) and c_.func.attr == "update" and isinstance(c_.func.value, ast.Name) \
+                    and isinstance(p.env.get(c_.func.value.id), ast.Dict) and not c_.args and all(k_.arg is not None for k_ in c_.keywords) \
+                    and not any(_first_ifexp(k_.value, self.bool_calls) is not None for k_ in c_.keywords):
+                # d.update(k=v, ...) on a dict display owned by d: the items are set in the display
+                for k_ in c_.keywords:
+                    self.assign(p, ast.Subscript(value=ast.Name(id=c_.func.value.id, ctx=ast.Load()), slice=ast.Constant(value=k_.arg), ctx=ast.Store()),
+                                self.sub(p, k_.value), st)
                 return [p]
             out = []
             for q, e in self.split(p, st.value):
@@ -1151,23 +1213,87 @@ def norm(text):
     return "".join(text.split()).replace("(", "").replace(")", "")
 
 
-def arith_text(e):
+class _SortDict(ast.NodeTransformer):
+    def visit_Dict(self, n):
+        self.generic_visit(n)
+        if n.keys and all(isinstance(k, ast.Constant) for k in n.keys):
+            pairs = sorted(zip(n.keys, n.values), key=lambda kv: repr(kv[0].value))
+            return ast.Dict(keys=[k for k, _ in pairs], values=[v for _, v in pairs])
+        return n
+
+
+def len_facts(p):
+    """{text of X: N} for the path's facts len(X) == N."""
+    out = {}
+    for a, t in p.conds:
+        if t and a[0] == "==" and "0" in (a[1], a[2]):
+            other = a[2] if a[1] == "0" else a[1]
+            m = _CONST_PLUS.match(other)
+            if m and m.group(2).startswith("1*len(") and m.group(2).endswith(")"):
+                out[m.group(2)[6:-1]] = -int(m.group(1))
+    return out
+
+
+class _SliceNorm(ast.NodeTransformer):
+    """With len(X) == N known: X[a:N] is X[a:], X[0:b] is X[:b]."""
+
+    def __init__(self, lens):
+        self.lens = lens
+
+    def visit_Subscript(self, n):
+        self.generic_visit(n)
+        if isinstance(n.slice, ast.Slice):
+            sl = n.slice
+            if isinstance(sl.lower, ast.Constant) and sl.lower.value == 0:
+                sl.lower = None
+            N = self.lens.get(src(n.value))
+            if N is not None and isinstance(sl.upper, ast.Constant) and sl.upper.value == N:
+                sl.upper = None
+        return n
+
+
+def arith_text(e, lens=None):
+    if lens:
+        e = _SliceNorm(lens).visit(copy.deepcopy(e))
+    return _arith_text(e)
+
+
+def _arith_text(e):
     """Polynomial normal form of an arithmetic expression (so a*(b+c) and b*a + a*c read the same); other
-    expressions as they are."""
-    e = simplify(e)
+    expressions as they are.  Dict displays with constant keys are written with sorted keys."""
+    e = _SortDict().visit(simplify(e))
+    from .linform import poly, show
+
+    class A(ast.NodeTransformer):
+        def visit_BinOp(self, n):
+            if isinstance(n.op, (ast.Add, ast.Sub, ast.Mult)):
+                try:
+                    return ast.copy_location(ast.Name(id="(%s)" % show(poly(n)), ctx=ast.Load()), n)
+                except Exception:
+                    pass
+            self.generic_visit(n)
+            return n
+
+        def visit_UnaryOp(self, n):
+            if isinstance(n.op, (ast.USub, ast.UAdd)):
+                try:
+                    return ast.copy_location(ast.Name(id="(%s)" % show(poly(n)), ctx=ast.Load()), n)
+                except Exception:
+                    pass
+            self.generic_visit(n)
+            return n
     if isinstance(e, (ast.BinOp, ast.UnaryOp)) and not (isinstance(e, ast.UnaryOp) and isinstance(e.op, ast.Not)):
-        from .linform import poly, show
         try:
             return show(poly(e))
         except Exception:
             pass
-    return src(e)
+    return src(A().visit(copy.deepcopy(e)))
 
 
 def result_text(p):
     k, e = p.result
     if k == "return":
-        return "return " + arith_text(e)
+        return "return " + arith_text(e, len_facts(p))
     if k == "raise":
         return "raise " + (src(e.func) if isinstance(e, ast.Call) else (src(e) if e is not None else ""))
     return k
@@ -1315,9 +1441,9 @@ def outcome_with(stores=None, calls=None, result=True, carries=None):
         parts = []
         for k, t, e in p.effects:
             if k == "store" and stores is not None and stores(t):
-                parts.append("%s = %s" % (t, arith_text(e)))
+                parts.append("%s = %s" % (t, arith_text(e, len_facts(p))))
             elif k == "carry" and carries is not None and carries(t):
-                parts.append("next %s = %s" % (t, arith_text(e)))
+                parts.append("next %s = %s" % (t, arith_text(e, len_facts(p))))
             elif k == "call" and calls is not None and calls(t):
                 parts.append(src(e))
         if result:
